@@ -19,6 +19,8 @@ EXTENDS Naturals, Integers, Sequences, FiniteSets, TLC
 
 CONSTANTS Pres,          \* initial conditions: subset of {"fresh","offerer","answerer","connected"}
           Modes,         \* transport modes the programs are run in (not part of the dynamics)
+          Medias,        \* what the connection carries: "av" (audio+video transceivers), "dc" (data channel only),
+                         \* "avdc" (both); not part of the dynamics either
           LocalClasses,  \* description classes for set_local:  subset of DescClasses
           RemoteClasses, \* description classes for set_remote: subset of DescClasses
           MaxLen,        \* number of calls in a program
